@@ -6,7 +6,7 @@ use crate::util::*;
 use crate::zoo::{self, ppath};
 use feos::ideal_gas::{Dippr, DipprRecord, IdealGasModel, Joback, JobackRecord};
 use feos::ResidualModel;
-use feos_core::parameter::{Identifier, IdentifierOption, Parameter, PureRecord};
+use feos_core::parameter::{FromSegments, Identifier, IdentifierOption, Parameter, PureRecord};
 use feos_core::{Contributions, EquationOfState, NoResidual, ReferenceSystem, Residual, State};
 use ndarray::Array1;
 use quantity::*;
@@ -73,6 +73,30 @@ pub fn run_igcp(tr: &mut Tr, args: &Args, rng: &mut Rng) {
         let j2 = j.clone();
         record_ig(tr, &format!("joback1987/{}", nm), "joback", vec![co], IdealGasModel::Joback(j),
             &move |t, x| jmk(j2.molar_isobaric_heat_capacity(t * KELVIN, x).unwrap()), &[1.0], &temps(args.thorough, rng));
+    }
+    // the Joback group sum itself: random group coefficients (all five non-zero) with counts 1..4, and the shipped groups of the shipped substances
+    let jco = |r: &JobackRecord| { let v = serde_json::to_value(r).unwrap(); ["a", "b", "c", "d", "e"].iter().map(|k| v[*k].as_f64().unwrap()).collect::<Vec<f64>>() };
+    for k in 0..(if args.thorough { 200 } else { 30 }) {
+        let ng = 1 + rng.below(4);
+        let groups: Vec<(JobackRecord, usize)> = (0..ng).map(|_| (JobackRecord::new(rng.range(-40.0, 60.0), rng.range(-0.1, 0.4), rng.range(-4e-4, 4e-4), rng.range(-2e-7, 2e-7), rng.range(-1e-10, 1e-10)), 1 + rng.below(4))).collect();
+        if let Ok(rec) = JobackRecord::from_segments(&groups) {
+            tr.ev(json!({"ev":"JobackSegments","case":format!("random{}", k),"segments":groups.iter().map(|(g, n)| json!({"c": fv(jco(g).iter()), "n": n})).collect::<Vec<_>>(),"record":fv(jco(&rec).iter())}));
+        }
+    }
+    {
+        let table: Vec<Value> = serde_json::from_str(&std::fs::read_to_string(ppath("ideal_gas/joback1987.json")).unwrap()).unwrap();
+        for (i, nm) in names.iter().enumerate().step_by(stepj) {
+            let Ok(j) = Joback::from_json_segments(&[nm.as_str()], ppath("pcsaft/gc_substances.json"), ppath("ideal_gas/joback1987.json"), None, IdentifierOption::Name) else { continue };
+            let segs: Vec<String> = subs[i]["segments"].as_array().unwrap().iter().map(|v| v.as_str().unwrap().to_owned()).collect();
+            let mut uniq: Vec<String> = segs.clone(); uniq.sort(); uniq.dedup();
+            let groups: Vec<Value> = uniq.iter().filter_map(|u| table.iter().find(|t| t["identifier"].as_str() == Some(u.as_str())).map(|t| {
+                let m = &t["model_record"];
+                json!({"c": fv(["a", "b", "c", "d", "e"].iter().map(|k| m[*k].as_f64().unwrap_or(0.0)).collect::<Vec<f64>>().iter()), "n": segs.iter().filter(|q| *q == u).count()})
+            })).collect();
+            if groups.len() == uniq.len() {
+                tr.ev(json!({"ev":"JobackSegments","case":format!("joback1987/{}", nm),"segments":groups,"record":fv(jco(&j.records().0[0].model_record).iter())}));
+            }
+        }
     }
     // random coefficient sets of every form, pure and mixtures (mole-fraction average)
     let nrand = if args.thorough { 60 } else { 6 };
